@@ -2,6 +2,7 @@ package main
 
 import (
 	"fmt"
+	"os"
 	"sort"
 	"strings"
 	"unicode"
@@ -378,7 +379,11 @@ func c12GenPat(r *Rng, n int) []Case {
 
 func c12Gen(r *Rng, tier string, n int) []Case {
 	var out []Case
+	if os.Getenv("C12_ONLY") == "exp" { // development aid: only the expansion programs
+		return c12GenExp(r.Fork(), n)
+	}
 	out = append(out, c12GenMatch(r.Fork(), tier, n/2)...)
 	out = append(out, c12GenPat(r.Fork(), n/10)...)
+	out = append(out, c12GenExp(r.Fork(), n)...)
 	return out
 }
